@@ -18,6 +18,7 @@ def run_job(args):
 
 
 def body(c):
+    c.spec_cases_replayed = True
     rng = random.Random(c.seed)
     path = os.path.join(common.VERIF, "out", "cfg", "PS.cfg")
     tlc.write_cfg(path, init="Init", next="Next", invariants=["DetectConsistent", "TupleWins", "MagicsDistinct"], constraint="Emit")
